@@ -215,7 +215,7 @@ def run(rep):
     oracle_symmetries(rep, rng, n_or)
     if broken and not rep.violations:
         # also aim the search at the formula sets whose model disagrees
-        for fs in sorted({b[1] for b in broken}):
+        for fs in sorted({b[1] for b in broken if b[1] in B.FORMULA_SETS}):    # ('model-unavailable', 'all', …) names no set
             oracle_symmetries(rep, rng, 200, hint=fs)
     for kind, fset, e, v, o, kw, m in broken[:5]:
         if not rep.violations:
